@@ -24,6 +24,8 @@ PV = 'skalo::process_variants::'
 
 
 def run(facts, chk, tier, only=None):
+    from . import c18
+    chk.guard('C17.leaf', 'C17.leaf:run', lambda: c18.check_graph_leaves(facts, chk, 'C17.leaf'))
     av = facts.fn(PV + 'analyse_variant_groups')
 
     def gate():
